@@ -5,11 +5,14 @@ import Proofs.C13Conc
 
 Model: `Model/Executor.lean` (`queryExecutor.do` as a function of the statement kind handed to it — `*Query`
 or `*Batch` (logged / unlogged / counter), observed or not —, the host iterator's output, per-host
-availability, the per-request outcomes, the retry policy's decision functions and the statement's attempt
+availability AS IT CHANGES during the execution (`us k h`: host `h` usable when `k` requests have been sent —
+an arbitrary function, so every sequence of hosts going down, losing their pool and coming back between
+attempts is covered), the per-request outcomes, the retry policy's decision functions and the statement's attempt
 counter and consistency level, which are state of the model; `executeQuery`'s choice of how many executions
 to start) and `Model/ExecutorConc.lean` (concurrent executions sharing the attempt counter and the host
-iterator). All theorems: every statement kind, every host sequence, every outcome sequence, every starting
-value of the counter, every policy (arbitrary decision functions unless stated), every schedule.
+iterator). All theorems: every statement kind, every host sequence, every usability function, every outcome
+sequence, every starting value of the counter, every policy (arbitrary decision functions unless stated),
+every schedule.
 -/
 namespace C13
 open Executor
@@ -18,168 +21,204 @@ open Executor
     statement kind and whether or not an observer is attached -/
 theorem C13_attempt_counted (req : Req) (cnt : Nat) : req.record cnt = cnt + 1 := Req.record_eq req cnt
 
-/-- **budget, every statement kind**: with a retry policy of the form `Attempts() ≤ N` a statement whose counter
-    stands at `cnt` reaches servers at most `1 + (N - cnt)` times — for `*Query` and every `*Batch` type,
-    observed or not, whatever the outcomes, hosts and consistency -/
+/-- **budget, every statement kind, every environment**: with a retry policy of the form `Attempts() ≤ N` a
+    statement whose counter stands at `cnt` reaches servers at most `1 + (N - cnt)` times — for `*Query` and every
+    `*Batch` type, observed or not, whatever the outcomes, the hosts offered, their (changing) usability and the
+    consistency -/
 theorem C13_budget_any_kind (req : Req) (p : Policy) (N : Nat) (hp : ∀ m, p.attempt m = decide (m ≤ N))
-    (outcome : Nat → Res) (fuel : Nat) (hosts : List Host) (k cnt cons : Nat) :
-    (doQuery req (some p) outcome fuel hosts k cnt cons).attempts.length ≤ 1 + (N - cnt) := by
-  unfold doQuery
-  cases nextUsable hosts with
-  | none => exact doLoop_budget req p N hp outcome fuel none [] k cnt cons none
-  | some q => exact doLoop_budget req p N hp outcome fuel (some q.1) q.2 k cnt cons none
+    (outcome : Nat → Res) (us : Nat → Nat → Bool) (fuel : Nat) (ids : List Nat) (k cnt cons : Nat) :
+    (doQuery req (some p) outcome us fuel ids k cnt cons).attempts.length ≤ 1 + (N - cnt) :=
+  doLoop_budget req p N hp outcome us fuel ids k cnt cons none
 
 /-- SimpleRetryPolicy{N} (and ExponentialBackoff{N}, same decisions): a fresh statement reaches servers at most
     N+1 times -/
-theorem C13_budget_simple (req : Req) (N : Nat) (outcome : Nat → Res) (fuel : Nat) (hosts : List Host) (k cons : Nat) :
-    (doQuery req (some (simplePolicy N)) outcome fuel hosts k 0 cons).attempts.length ≤ N + 1 := by
-  have := C13_budget_any_kind req (simplePolicy N) N (fun _ => rfl) outcome fuel hosts k 0 cons
+theorem C13_budget_simple (req : Req) (N : Nat) (outcome : Nat → Res) (us : Nat → Nat → Bool) (fuel : Nat) (ids : List Nat)
+    (k cons : Nat) :
+    (doQuery req (some (simplePolicy N)) outcome us fuel ids k 0 cons).attempts.length ≤ N + 1 := by
+  have := C13_budget_any_kind req (simplePolicy N) N (fun _ => rfl) outcome us fuel ids k 0 cons
   omega
 
-theorem C13_budget_exponential (req : Req) (N : Nat) (outcome : Nat → Res) (fuel : Nat) (hosts : List Host) (k cons : Nat) :
-    (doQuery req (some (exponentialPolicy N)) outcome fuel hosts k 0 cons).attempts.length ≤ N + 1 := by
-  have := C13_budget_any_kind req (exponentialPolicy N) N (fun _ => rfl) outcome fuel hosts k 0 cons
+theorem C13_budget_exponential (req : Req) (N : Nat) (outcome : Nat → Res) (us : Nat → Nat → Bool) (fuel : Nat) (ids : List Nat)
+    (k cons : Nat) :
+    (doQuery req (some (exponentialPolicy N)) outcome us fuel ids k 0 cons).attempts.length ≤ N + 1 := by
+  have := C13_budget_any_kind req (exponentialPolicy N) N (fun _ => rfl) outcome us fuel ids k 0 cons
   omega
 
 /-- DowngradingConsistencyRetryPolicy with the levels `ls`: at most `1 + |ls|` requests -/
-theorem C13_budget_downgrading (req : Req) (ls : List Nat) (outcome : Nat → Res) (fuel : Nat) (hosts : List Host) (k cons : Nat) :
-    (doQuery req (some (downgradingPolicyL ls)) outcome fuel hosts k 0 cons).attempts.length ≤ ls.length + 1 := by
-  have := C13_budget_any_kind req (downgradingPolicyL ls) ls.length (fun _ => rfl) outcome fuel hosts k 0 cons
+theorem C13_budget_downgrading (req : Req) (ls : List Nat) (outcome : Nat → Res) (us : Nat → Nat → Bool) (fuel : Nat)
+    (ids : List Nat) (k cons : Nat) :
+    (doQuery req (some (downgradingPolicyL ls)) outcome us fuel ids k 0 cons).attempts.length ≤ ls.length + 1 := by
+  have := C13_budget_any_kind req (downgradingPolicyL ls) ls.length (fun _ => rfl) outcome us fuel ids k 0 cons
   omega
 
 /-- no retry policy: at most one attempt -/
-theorem C13_no_policy_once (req : Req) (outcome : Nat → Res) (fuel : Nat) (hosts : List Host) (k cnt cons : Nat) :
-    (doQuery req none outcome fuel hosts k cnt cons).attempts.length ≤ 1 := by
+theorem C13_no_policy_once (req : Req) (outcome : Nat → Res) (us : Nat → Nat → Bool) (fuel : Nat) (ids : List Nat)
+    (k cnt cons : Nat) :
+    (doQuery req none outcome us fuel ids k cnt cons).attempts.length ≤ 1 := by
   unfold doQuery
-  cases nextUsable hosts with
-  | none => cases fuel <;> simp [doLoop]
-  | some p =>
-    cases fuel with
-    | zero => simp [doLoop]
-    | succ f => simp only [doLoop]; cases outcome k <;> simp
+  cases fuel with
+  | zero => simp [doLoop]
+  | succ f =>
+    simp only [doLoop]
+    cases nextUsable (us k) ids with
+    | none => simp
+    | some p => cases outcome k <;> simp
 
-theorem doQuery_good (req : Req) (pol : Option Policy) (outcome : Nat → Res) (fuel : Nat) (hosts : List Host) (k cnt cons : Nat) :
-    Good outcome ((usable hosts).map (·.id)) k cnt none (doQuery req pol outcome fuel hosts k cnt cons) := by
-  unfold doQuery
-  rcases nextUsable_spec hosts with ⟨hn, hu⟩ | ⟨h, rest, hn, hu⟩
-  · simp only [hn]
-    have := doLoop_good req pol outcome fuel none [] k cnt cons none
-    rw [hu]; simpa [usable] using this
-  · simp only [hn]
-    have := doLoop_good req pol outcome fuel (some h) rest k cnt cons none
-    rw [hu]; simpa using this
+theorem doQuery_good (req : Req) (pol : Option Policy) (outcome : Nat → Res) (us : Nat → Nat → Bool) (fuel : Nat)
+    (ids : List Nat) (k cnt cons : Nat) :
+    Good outcome us ids k cnt none (doQuery req pol outcome us fuel ids k cnt cons) :=
+  doLoop_good req pol outcome us fuel ids k cnt cons none
 
 /-- **attempts are accounted**: afterwards `Attempts()` = its previous value + the number of requests sent; the
     i-th of them was numbered `cnt + i` for the observer and got the i-th outcome -/
-theorem C13_attempts_accounted (req : Req) (pol : Option Policy) (outcome : Nat → Res) (fuel : Nat) (hosts : List Host)
-    (k cnt cons : Nat) :
-    let out := doQuery req pol outcome fuel hosts k cnt cons
+theorem C13_attempts_accounted (req : Req) (pol : Option Policy) (outcome : Nat → Res) (us : Nat → Nat → Bool) (fuel : Nat)
+    (ids : List Nat) (k cnt cons : Nat) :
+    let out := doQuery req pol outcome us fuel ids k cnt cons
     out.cnt = cnt + out.attempts.length ∧
     (∀ i a, out.attempts[i]? = some a → a.idx = cnt + i ∧ a.res = outcome (k + i)) := by
-  have h := doQuery_good req pol outcome fuel hosts k cnt cons
-  exact ⟨h.2.1, h.2.2.1⟩
+  have h := doQuery_good req pol outcome us fuel ids k cnt cons
+  exact ⟨h.2.1, fun i a ha => ⟨(h.2.2.1 i a ha).1, (h.2.2.1 i a ha).2.1⟩⟩
 
-/-- **host choice**: the attempts walk along the usable hosts in the order the policy offered them: each
-    attempt is on the same host as the previous one (Retry) or on the next usable host (RetryNextHost);
-    down hosts and hosts without a connection are skipped and consume no budget (they do not appear). -/
-theorem C13_host_choice (req : Req) (pol : Option Policy) (outcome : Nat → Res) (fuel : Nat) (hosts : List Host)
-    (k cnt cons : Nat) :
-    Walk ((usable hosts).map (·.id)) ((doQuery req pol outcome fuel hosts k cnt cons).attempts.map (·.host)) :=
-  (doQuery_good req pol outcome fuel hosts k cnt cons).1
+/-- **host choice in a changing environment**: the attempts walk along the hosts in the order the policy offered
+    them: every attempt is on a host that is usable at that moment; after an attempt the executor stays on that
+    host (Retry) — unless the host has become unusable meanwhile, then it is passed over like any unusable host —
+    or moves on (RetryNextHost); a host is passed over only if it is unusable at that moment (down, no pool, no
+    connection: this consumes no budget) or has just been attempted; never backwards. -/
+theorem C13_host_choice (req : Req) (pol : Option Policy) (outcome : Nat → Res) (us : Nat → Nat → Bool) (fuel : Nat)
+    (ids : List Nat) (k cnt cons : Nat) :
+    let out := doQuery req pol outcome us fuel ids k cnt cons
+    Walk us k ids (out.attempts.map (·.host)) ∧
+    (∀ i a, out.attempts[i]? = some a → us (k + i) a.host = true) := by
+  have h := doQuery_good req pol outcome us fuel ids k cnt cons
+  exact ⟨h.1, fun i a ha => (h.2.2.1 i a ha).2.2⟩
 
-/-- **one result, the last attempt's**: the returned iter is the last attempt's (`last`), or carries the last
-    attempt's error when the hosts ran out (`lastErr`), or ErrNoConnections exactly when nothing was attempted -/
-theorem C13_one_result_last_error (req : Req) (pol : Option Policy) (outcome : Nat → Res) (fuel : Nat) (hosts : List Host)
-    (k cnt cons : Nat) :
-    let out := doQuery req pol outcome fuel hosts k cnt cons
+/-- **one result, the last attempt's — for every way the hosts' usability changes during the execution**: the
+    returned iter is the last attempt's (`last`), or carries the error of the LAST attempt (kind and request
+    number: `lastErr e j` with `j` the number of the last request sent, whose outcome was `err e`) when no usable
+    host was left — also when the policy answered `Retry` and that very host had become unusable —, and
+    ErrNoConnections exactly when nothing was attempted (given fuel) -/
+theorem C13_one_result_last_error (req : Req) (pol : Option Policy) (outcome : Nat → Res) (us : Nat → Nat → Bool) (fuel : Nat)
+    (ids : List Nat) (k cnt cons : Nat) :
+    let out := doQuery req pol outcome us fuel ids k cnt cons
     (∀ r, out.final = .last r → ∃ a, out.attempts.getLast? = some a ∧ a.res = r) ∧
-    (∀ e, out.final = .lastErr e → ∃ a, out.attempts.getLast? = some a ∧ a.res = .err e) ∧
-    (out.final = .noConnections → out.attempts = []) := by
-  have h := doQuery_good req pol outcome fuel hosts k cnt cons
-  refine ⟨h.2.2.2.1, ?_, fun hf => (h.2.2.2.2.2 hf).1⟩
-  intro e he
-  rcases h.2.2.2.2.1 e he with ⟨_, g⟩ | g
-  · simp at g
-  · exact g
+    (∀ e j, out.final = .lastErr e j →
+        (∃ a, out.attempts.getLast? = some a ∧ a.res = .err e) ∧ j + 1 = k + out.attempts.length ∧ outcome j = .err e) ∧
+    (out.final = .noConnections → out.attempts = []) ∧
+    (out.attempts = [] → out.final = .noConnections ∨ out.final = .outOfFuel) := by
+  intro out
+  have h : Good outcome us ids k cnt none out := doQuery_good req pol outcome us fuel ids k cnt cons
+  refine ⟨h.2.2.2.1, ?_, fun hf => (h.2.2.2.2.2.1 hf).1, ?_⟩
+  · intro e j he
+    rcases h.2.2.2.2.1 e j he with ⟨_, g⟩ | ⟨a, ha1, ha2, ha3⟩
+    · simp at g
+    · refine ⟨⟨a, ha1, ha2⟩, ha3, ?_⟩
+      -- the last attempt is attempt number `length - 1`, i.e. request `j`
+      have hne : out.attempts ≠ [] := by intro hn; rw [hn] at ha1; simp at ha1
+      have hpos : 0 < out.attempts.length := List.length_pos_iff.mpr hne
+      have hidx : out.attempts[out.attempts.length - 1]? = some a := by
+        rw [List.getLast?_eq_getElem?] at ha1; exact ha1
+      have := (h.2.2.1 _ a hidx).2.1
+      rw [ha2] at this
+      have hj : j = k + (out.attempts.length - 1) := by omega
+      rw [hj]; exact this.symm
+  · intro he
+    rcases h.2.2.2.2.2.2 he with g | ⟨_, g⟩ | ⟨e, j, g, _⟩
+    · exact Or.inr g
+    · exact Or.inl g
+    · simp at g
 
 /-- a logical error (context cancelled / deadline / not found) ends the statement at once, whatever the policy -/
-theorem C13_context_stops (req : Req) (pol : Option Policy) (outcome : Nat → Res) (fuel : Nat) (h : Host) (rest : List Host)
-    (k cnt cons : Nat) (ho : outcome k = .logical) :
-    doLoop req pol outcome (fuel+1) (some h) rest k cnt cons none = ⟨[⟨h.id, cnt, cons, .logical⟩], .last .logical, cnt + 1, cons⟩ := by
-  simp [doLoop, ho, Req.record_eq]
+theorem C13_context_stops (req : Req) (pol : Option Policy) (outcome : Nat → Res) (us : Nat → Nat → Bool) (fuel : Nat)
+    (h : Nat) (rest : List Nat) (k cnt cons : Nat) (hu : us k h = true) (ho : outcome k = .logical) :
+    doLoop req pol outcome us (fuel+1) (h :: rest) k cnt cons none
+      = ⟨[⟨h, cnt, cons, .logical⟩], .last .logical, cnt + 1, cons⟩ := by
+  simp [doLoop, nextUsable, hu, ho, Req.record_eq]
 
 /-- a context that is already done when the execution starts: nothing reaches a server, the one attempt is still
     counted, no retry -/
-theorem C13_context_done_before (req : Req) (pol : Option Policy) (outcome : Nat → Res) (fuel : Nat) (hosts : List Host)
-    (k cnt cons : Nat) :
-    let r := execute req pol outcome fuel hosts k cnt cons true
+theorem C13_context_done_before (req : Req) (pol : Option Policy) (outcome : Nat → Res) (us : Nat → Nat → Bool) (fuel : Nat)
+    (ids : List Nat) (k cnt cons : Nat) :
+    let r := execute req pol outcome us fuel ids k cnt cons true
     r.sent = [] ∧ r.out.attempts.length ≤ 1 ∧ r.out.cnt = cnt + r.out.attempts.length ∧ r.ctxDone = true := by
   simp only [execute, if_true]
-  cases nextUsable hosts with
+  cases nextUsable (us k) ids with
   | none => simp
   | some p => simp [Req.record_eq]
 
 /-- what reaches servers in one execution (context done or not) stays within the budget -/
 theorem C13_budget_execute (req : Req) (p : Policy) (N : Nat) (hp : ∀ m, p.attempt m = decide (m ≤ N))
-    (outcome : Nat → Res) (fuel : Nat) (hosts : List Host) (k cnt cons : Nat) (done : Bool) :
-    (execute req (some p) outcome fuel hosts k cnt cons done).sent.length ≤ 1 + (N - cnt) := by
+    (outcome : Nat → Res) (us : Nat → Nat → Bool) (fuel : Nat) (ids : List Nat) (k cnt cons : Nat) (done : Bool) :
+    (execute req (some p) outcome us fuel ids k cnt cons done).sent.length ≤ 1 + (N - cnt) := by
   cases done with
   | true =>
-    have h : (execute req (some p) outcome fuel hosts k cnt cons true).sent = [] :=
-      (C13_context_done_before req (some p) outcome fuel hosts k cnt cons).1
+    have h : (execute req (some p) outcome us fuel ids k cnt cons true).sent = [] :=
+      (C13_context_done_before req (some p) outcome us fuel ids k cnt cons).1
     rw [h]; simp
   | false =>
     simp only [execute, Bool.false_eq_true, if_false]
-    exact C13_budget_any_kind req p N hp outcome fuel hosts k cnt cons
+    exact C13_budget_any_kind req p N hp outcome us fuel ids k cnt cons
 
 /-- Rethrow and Ignore stop retrying; an unknown retry type yields ErrUnknownRetryType -/
-theorem C13_rethrow_ignore_stop (req : Req) (p : Policy) (outcome : Nat → Res) (fuel : Nat) (h : Host) (rest : List Host)
-    (k cnt cons e : Nat) (ho : outcome k = .err e) (hrt : p.rtype e = .rethrow ∨ p.rtype e = .ignore) :
-    let o := doLoop req (some p) outcome (fuel+1) (some h) rest k cnt cons none
-    o.attempts = [⟨h.id, cnt, cons, .err e⟩] ∧ o.final = .last (.err e) := by
-  simp only [doLoop, ho, Req.record_eq]
+theorem C13_rethrow_ignore_stop (req : Req) (p : Policy) (outcome : Nat → Res) (us : Nat → Nat → Bool) (fuel : Nat)
+    (h : Nat) (rest : List Nat) (k cnt cons e : Nat) (hu : us k h = true) (ho : outcome k = .err e)
+    (hrt : p.rtype e = .rethrow ∨ p.rtype e = .ignore) :
+    let o := doLoop req (some p) outcome us (fuel+1) (h :: rest) k cnt cons none
+    o.attempts = [⟨h, cnt, cons, .err e⟩] ∧ o.final = .last (.err e) := by
+  simp only [doLoop, nextUsable, hu, if_true, ho, Req.record_eq]
   by_cases hat : p.attempt (cnt+1) = true
   · rcases hrt with hrt | hrt <;> simp [hat, hrt]
   · have : p.attempt (cnt+1) = false := by simpa using hat
     simp [this]
 
-theorem C13_unknown_retry_type (req : Req) (p : Policy) (outcome : Nat → Res) (fuel : Nat) (h : Host) (rest : List Host)
-    (k cnt cons e : Nat) (ho : outcome k = .err e) (hat : p.attempt (cnt+1) = true) (hrt : p.rtype e = .unknown) :
-    (doLoop req (some p) outcome (fuel+1) (some h) rest k cnt cons none).final = .unknownRetryType := by
-  simp [doLoop, ho, hat, hrt, Req.record_eq]
+theorem C13_unknown_retry_type (req : Req) (p : Policy) (outcome : Nat → Res) (us : Nat → Nat → Bool) (fuel : Nat)
+    (h : Nat) (rest : List Nat) (k cnt cons e : Nat) (hu : us k h = true) (ho : outcome k = .err e)
+    (hat : p.attempt (cnt+1) = true) (hrt : p.rtype e = .unknown) :
+    (doLoop req (some p) outcome us (fuel+1) (h :: rest) k cnt cons none).final = .unknownRetryType := by
+  simp [doLoop, nextUsable, hu, ho, hat, hrt, Req.record_eq]
+
+/-- **a same-host Retry whose host is gone**: the policy answers `Retry` for the failure of request `k` on host
+    `h`, but when the loop comes round `h` is no longer usable and neither is any host the iterator still offers:
+    the caller gets THAT failure (kind `e`, request `k`) — not an earlier one, not ErrNoConnections — whatever
+    error had been recorded before -/
+theorem C13_retry_host_gone (req : Req) (p : Policy) (outcome : Nat → Res) (us : Nat → Nat → Bool) (fuel : Nat)
+    (h : Nat) (rest : List Nat) (k cnt cons e : Nat) (prev : Option (Nat × Nat))
+    (hu : us k h = true) (ho : outcome k = .err e) (hat : p.attempt (cnt+1) = true) (hrt : p.rtype e = .retry)
+    (hgone : ∀ x ∈ h :: rest, us (k+1) x = false) :
+    let o := doLoop req (some p) outcome us (fuel+2) (h :: rest) k cnt cons prev
+    o.attempts = [⟨h, cnt, cons, .err e⟩] ∧ o.final = .lastErr e k := by
+  have hn : nextUsable (us (k+1)) (h :: rest) = none := by
+    rcases nextUsable_spec (us (k+1)) (h :: rest) with ⟨g, _⟩ | ⟨x, r, pre, _, hl, hx, _⟩
+    · exact g
+    · have : x ∈ h :: rest := by rw [hl]; simp
+      rw [hgone x this] at hx; simp at hx
+  have h1 : nextUsable (us k) (h :: rest) = some (h, rest) := by simp [nextUsable, hu]
+  simp [doLoop, h1, ho, hat, hrt, Req.record_eq, hn, Out.push]
 
 /-- **consistency under the downgrading policy**: the first request of a fresh statement carries the statement's
     own level, the (i+1)-th retry the i-th configured level -/
-theorem C13_downgrading_consistency (req : Req) (ls : List Nat) (outcome : Nat → Res) (fuel : Nat) (hosts : List Host)
-    (k cons : Nat) :
-    let out := doQuery req (some (downgradingPolicyL ls)) outcome fuel hosts k 0 cons
+theorem C13_downgrading_consistency (req : Req) (ls : List Nat) (outcome : Nat → Res) (us : Nat → Nat → Bool) (fuel : Nat)
+    (ids : List Nat) (k cons : Nat) :
+    let out := doQuery req (some (downgradingPolicyL ls)) outcome us fuel ids k 0 cons
     (∀ a, out.attempts[0]? = some a → a.cons = cons) ∧
     (∀ i b, out.attempts[i+1]? = some b → ls[i]? = some b.cons) := by
   intro out
-  have hb : out.attempts.length ≤ ls.length + 1 := C13_budget_downgrading req ls outcome fuel hosts k cons
-  have key : ∀ cur rest, out = doLoop req (some (downgradingPolicyL ls)) outcome fuel cur rest k 0 cons none →
-      (∀ a, out.attempts[0]? = some a → a.cons = cons) ∧
-      (∀ i b, out.attempts[i+1]? = some b → ls[i]? = some b.cons) := by
-    intro cur rest ho
-    have h := doLoop_cons req (downgradingPolicyL ls) outcome fuel cur rest k 0 cons none
-    simp only [← ho] at h
-    refine ⟨h.1, ?_⟩
-    intro i b hbi
-    have hlt : i + 1 < out.attempts.length := by
-      rcases Nat.lt_or_ge (i + 1) out.attempts.length with g | g
-      · exact g
-      · rw [List.getElem?_eq_none g] at hbi; simp at hbi
-    have hi : i < out.attempts.length := by omega
-    have ha : out.attempts[i]? = some (out.attempts[i]) := List.getElem?_eq_getElem hi
-    have := h.2 i _ b ha hbi
-    have hl : i < ls.length := by omega
-    simp only [downgradingPolicyL, Nat.zero_add, Nat.add_sub_cancel, Nat.add_one_ne_zero, if_false,
-      List.getElem?_eq_getElem hl, Option.getD_some] at this
-    rw [List.getElem?_eq_getElem hl, this]
-  show _
-  cases hn : nextUsable hosts with
-  | none => exact key none [] (by simp [out, doQuery, hn])
-  | some p => exact key (some p.1) p.2 (by simp [out, doQuery, hn])
+  have hb : out.attempts.length ≤ ls.length + 1 := C13_budget_downgrading req ls outcome us fuel ids k cons
+  have h := doLoop_cons req (downgradingPolicyL ls) outcome us fuel ids k 0 cons none
+  have ho : out = doLoop req (some (downgradingPolicyL ls)) outcome us fuel ids k 0 cons none := rfl
+  simp only [← ho] at h
+  refine ⟨h.1, ?_⟩
+  intro i b hbi
+  have hlt : i + 1 < out.attempts.length := by
+    rcases Nat.lt_or_ge (i + 1) out.attempts.length with g | g
+    · exact g
+    · rw [List.getElem?_eq_none g] at hbi; simp at hbi
+  have hi : i < out.attempts.length := by omega
+  have ha : out.attempts[i]? = some (out.attempts[i]) := List.getElem?_eq_getElem hi
+  have := h.2 i _ b ha hbi
+  have hl : i < ls.length := by omega
+  simp only [downgradingPolicyL, Nat.zero_add, Nat.add_sub_cancel, Nat.add_one_ne_zero, if_false,
+    List.getElem?_eq_getElem hl, Option.getD_some] at this
+  rw [List.getElem?_eq_getElem hl, this]
 
 /-- a statement not marked idempotent is never executed speculatively; a batch is idempotent only if every entry is -/
 theorem C13_nonidempotent_not_speculative (spAttempts : Nat) : maxExecutions false spAttempts = 1 := by
@@ -221,17 +260,32 @@ theorem C13_shared_no_policy (c0 hosts e : Nat) (sched : List ExecutorConc.Act) 
     Counterexample (known finding KF-C13-1, replayed on the real code): SimpleRetryPolicy{1}, first attempt
     fails → the second host receives the (non-idempotent) write as well. -/
 theorem C13_cex_nonidempotent_retried :
-    (doQuery ⟨.query, false⟩ (some (simplePolicy 1)) (fun _ => .err 9) 10 [⟨1, true, true⟩, ⟨2, true, true⟩] 0 0 1).attempts.map (·.host)
+    (doQuery ⟨.query, false⟩ (some (simplePolicy 1)) (fun _ => .err 9) (fun _ _ => true) 10 [1, 2] 0 0 1).attempts.map (·.host)
       = [1, 2] := by
   decide
 
 /-- proved part: without a retry policy (the default) a non-idempotent statement — like any statement — is sent once -/
-theorem C13_nonidempotent_not_retried_partial (req : Req) (outcome : Nat → Res) (fuel : Nat) (hosts : List Host) (k cons : Nat) :
-    (doQuery req none outcome fuel hosts k 0 cons).attempts.length ≤ 1 := C13_no_policy_once req outcome fuel hosts k 0 cons
+theorem C13_nonidempotent_not_retried_partial (req : Req) (outcome : Nat → Res) (us : Nat → Nat → Bool) (fuel : Nat)
+    (ids : List Nat) (k cons : Nat) :
+    (doQuery req none outcome us fuel ids k 0 cons).attempts.length ≤ 1 := C13_no_policy_once req outcome us fuel ids k 0 cons
 
-example : (doQuery ⟨.batchUnlogged, false⟩ (some (downgradingPolicyL [4, 1])) (fun n => if n = 0 then .err kReadTO else if n = 1 then .err 9 else .ok) 10
-    [⟨1, true, true⟩, ⟨2, false, true⟩, ⟨3, true, false⟩, ⟨4, true, true⟩] 0 0 6) =
+example : (doQuery ⟨.batchUnlogged, false⟩ (some (downgradingPolicyL [4, 1])) (fun n => if n = 0 then .err kReadTO else if n = 1 then .err 9 else .ok)
+    (usOf [⟨1, true, true⟩, ⟨2, false, true⟩, ⟨3, true, false⟩, ⟨4, true, true⟩] (fun _ => [])) 10 [1, 2, 3, 4] 0 0 6) =
     ⟨[⟨1, 0, 6, .err 7⟩, ⟨1, 1, 4, .err 9⟩, ⟨4, 2, 1, .ok⟩], .last .ok, 3, 1⟩ := by decide
+
+/-- non-vacuity of the changing environment: overloaded on host 1 (next host), read timeout on host 2 (the
+    downgrading policy answers Retry), host 2 is marked down before the loop comes round: the caller gets the
+    read timeout of request 1, not the overloaded error of request 0 and not ErrNoConnections -/
+example : (doQuery ⟨.query, false⟩ (some (downgradingPolicyL [2, 1])) (fun n => if n = 0 then .err 9 else .err kReadTO)
+    (usOf [⟨1, true, true⟩, ⟨2, true, true⟩] (fun k => if k = 1 then [(.markDown, 2)] else [])) 10 [1, 2] 0 0 4) =
+    ⟨[⟨1, 0, 4, .err 9⟩, ⟨2, 1, 2, .err 7⟩], .lastErr 7 1, 2, 1⟩ := by decide
+
+/-- … and a host that comes back is used: host 1 loses its pool after request 0 (Retry walks on to host 2), host 1
+    is re-added after request 1, but the walk never goes backwards -/
+example : (doQuery ⟨.query, false⟩ (some (downgradingPolicyL [2, 1])) (fun _ => .err kReadTO)
+    (usOf [⟨1, true, true⟩, ⟨2, true, true⟩, ⟨3, false, true⟩]
+      (fun k => if k = 0 then [(.poolGone, 1)] else if k = 1 then [(.poolBack, 1), (.poolGone, 2), (.markUp, 3)] else [])) 10 [1, 2, 3] 0 0 4) =
+    ⟨[⟨1, 0, 4, .err 7⟩, ⟨2, 1, 2, .err 7⟩, ⟨3, 2, 1, .err 7⟩], .last (.err 7), 3, 1⟩ := by decide
 
 /-- non-vacuity of the shared-counter bound: two executions, Simple{1}, three hosts — a schedule that reaches
     the bound 1 + 2 -/
